@@ -122,7 +122,24 @@ def run(chk, facts_dir, tier):
             ok_i = True
     zero = any(s["rv"]["k"] == "agg" and s["rv"]["ak"].endswith("Option::Some") and strip(iev.operand(s["rv"]["ops"][0], (i, j)))[0] == "const" and strip(iev.operand(s["rv"]["ops"][0], (i, j)))[2] == 0
                for i, j, s in ib.assigns())
-    if ok_i and zero:
+    # the value returned is the checked_add result itself (or Some(0)): nothing narrows it afterwards
+    post = None
+    for r in ib.return_blocks():
+        rt = strip(iev.place({"l": 0, "p": []}, (r, "T")))
+        for alt in (rt[1] if rt[0] == "phi" else (rt,)):
+            a = strip(alt)
+            if a[0] == "call" and a[1].endswith("::checked_add"):
+                continue
+            if a[0] == "agg" and a[1].endswith("Option::Some") and strip(a[2][0])[0] == "const":
+                continue
+            if a[0] == "call" and any(isinstance(x, tuple) and x and x[0] == "call" and x[1].endswith("::checked_add") for x in walk(a)):
+                post = a[1]
+    if ok_i and zero and post and post.rsplit("::", 1)[-1] in ("filter", "take_if", "xor", "and", "zip"):
+        chk.fail("R25.3", ib.path, "into-next-narrowed", "into_next_version passes the result of `v.checked_add(1)` through %s before returning it: some next versions are turned into "
+                 "None, so `into_next_version(from_next_version(v))` is no longer `Some(v)` for every v" % ("Option::" + post.rsplit("::", 1)[-1]), ib)
+    elif ok_i and zero and post:
+        raise Inconclusive("into_next_version: the checked_add result is post-processed by %s; re-read it" % post)
+    elif ok_i and zero:
         chk.ok("R25.3", "into_next_version: Empty -> Some(0), Exact(v) -> v.checked_add(1)", ib.where())
     else:
         chk.fail("R25.3", ib.path, "into-next-shape", "into_next_version is no longer `Empty -> Some(0), Exact(v) -> v.checked_add(1)`", ib)
